@@ -61,6 +61,22 @@ Proof.
 Qed.
 Print Assumptions gen_mistake_is_model.
 
+(* Market.change_fundamental_price, as the source says it now: the level of the current time is multiplied by the scale - stored both in
+   the market's own series and in Fundamentals.prices - and the regeneration point of the fundamentals moves to the current time
+   UNCONDITIONALLY (Fund.shock: [mkF t ...]), so that every later value is generated again from the new level *)
+Theorem gen_change_fundamental_price : forall scale cur time,
+  shock_level_gen scale cur time = POk (qmul cur scale) /\ shock_until_gen scale cur time = POk time.
+Proof. intros. split; reflexivity. Qed.
+Print Assumptions gen_change_fundamental_price.
+
+(* with the scale the shock hook passes, the new level is the one the model's shock_before_step stores *)
+Theorem gen_shock_level_is_model : forall time trigger len rate cur sc,
+  fund_shock_scale_gen time trigger len false rate = POk sc -> shock_level_gen sc cur time = POk (qmul cur (one_plus rate)).
+Proof.
+  intros time trigger len rate cur sc H. rewrite gen_fund_shock_scale in H. destruct (_ && _); [|discriminate]. inversion H; subst. reflexivity.
+Qed.
+Print Assumptions gen_shock_level_is_model.
+
 Example gen_shock_example :
   fund_shock_scale_gen 5 5 2 false (-1#10) = POk (9#10) /\ fund_shock_scale_gen 7 5 2 false (-1#10) = PErr PyAssertionError /\
   fund_shock_scale_gen 6 5 2 true (-1#10) = PErr PyAssertionError /\
